@@ -207,6 +207,7 @@ STRESS_SINKS = [
     ("QWidget", "Foo"), ("QWidget", "Foo.Bar"), ("QWidget", "Foo.bar"), ("QWidget", "QLayout.Row"),
     ("QWidget", "QLayout"), ("QWidget", "foo.Bar"), ("QWidget", "on"), ("QWidget", "onX"),
     ("QWidget", "Qt.foo"), ("QWidget", "QWidget.windowTitle"), ("QWidget", "QSizePolicy.horizontalPolicy"),
+    ("QMenu", "actions"), ("QToolButton", "actions"), ("QMenuBar", "actions"), ("QToolButton", "defaultAction"),
 ]
 
 
@@ -258,6 +259,9 @@ STRESS_VALUES = [
     '{ if (cb.checked) { "a" } else { "b" }; 1 }', "{ return; 1 }", "sp.value as uint",
     "VObj.M1", "VObj.F0 | VObj.F1", "{ break }", "{ switch (sp.value) { case 1: break; default: } }",
     "{ ; }", "(1)", "((cb))", "cb.checked && sp.value", "!1", "-true", "+\"s\"",
+    # references to the (anonymous) object itself and odd object lists
+    "[this]", "[menuAction()]", "[this.menuAction()]", "menuAction()", "this.menuAction()", "[mn, act]", "[act, act]",
+    "[null]", "[act, null]", "[mn.menuAction(), mn.menuAction()]", "[act.menu]", "mn",
 ]
 
 
@@ -276,6 +280,34 @@ def stressor_docs():
                      "window: \"red\"", "a { b: 1 }", "onFoo: 1", "x: 1; x: 2"]:
             src = (f"import qmluic.QtWidgets\nQWidget {{\n    {ctx}    {cls} {{ {base} {{ {body} }} }}\n}}\n")
             yield (f"stress-map/{cls}.{base}{{{body}}}", src)
+
+
+LAYOUT_VALUES = ["0", "-1", "1", "2", "65535", "65536", "2147483648", "4294967296", "4294967297", "1 - 1", "3 - 3", "0 * 5",
+                 "1.5", "true", '"s"', "sp.value", "null", "Qt.AlignLeft", "QGridLayout.TopToBottom", "-0"]
+
+
+def layout_stressor_docs():
+    """Counts, flow and attached cell settings of grid/form/box layouts over edge values (zero, folded
+    zero, negative, beyond 16/32 bits, wrong kinds), with children present so that the cursor runs."""
+    head = "import qmluic.QtWidgets\nQWidget {\n    QSpinBox { id: sp }\n"
+    for lay in ("QGridLayout", "QFormLayout", "QVBoxLayout"):
+        for name in ("columns", "rows", "flow", "spacing", "horizontalSpacing"):
+            for val in LAYOUT_VALUES:
+                for extra in ("", "flow: QGridLayout.TopToBottom; "):
+                    if extra and (name == "flow" or lay != "QGridLayout"):
+                        continue
+                    yield (f"stress-layout/{lay}.{extra}{name}={val}",
+                           head + f"    QWidget {{ {lay} {{ {extra}{name}: {val}; QLabel {{ }} QLabel {{ }} QLabel {{ }} }} }}\n}}\n")
+        for name in ("row", "column", "rowSpan", "columnSpan", "rowStretch", "columnStretch", "rowMinimumHeight",
+                     "columnMinimumWidth", "alignment"):
+            for val in LAYOUT_VALUES:
+                yield (f"stress-layout/{lay}/QLayout.{name}={val}",
+                       head + f"    QWidget {{ {lay} {{ QLabel {{ }} QLabel {{ QLayout.{name}: {val} }} QLabel {{ }} }} }}\n}}\n")
+
+
+def stressor_docs_all():
+    yield from stressor_docs()
+    yield from layout_stressor_docs()
 
 
 # ----------------------------------------------------------------- depth ladders
